@@ -114,6 +114,8 @@ class AffEval:
 
     def __init__(self, leaf):
         self.leaf = leaf
+        self.rel = []      # (kind, relative affine form, source) of every
+        #                    index / slice bound applied to a sequence value
 
     def ev(self, n, env):
         v = self.leaf(n, env, self)
@@ -147,10 +149,15 @@ class AffEval:
                 hi = self.ev(s.upper, env) if s.upper is not None else None
                 if not isinstance(lo, Aff) or (hi is not None and not isinstance(hi, Aff)):
                     return Unknown(norm_src(n))
+                if s.lower is not None:
+                    self.rel.append(('lower bound', lo, norm_src(n)))
+                if hi is not None:
+                    self.rel.append(('upper bound', hi, norm_src(n)))
                 return Slice(base.base, base.lo + lo,
                              (base.lo + hi) if hi is not None else base.hi)
             idx = self.ev(s, env)
             if isinstance(idx, Aff):
+                self.rel.append(('index', idx, norm_src(n)))
                 return Elem(base.base, base.lo + idx)
             return Unknown(norm_src(n))
         if isinstance(n, ast.Call) and isinstance(n.func, ast.Name):
@@ -167,3 +174,22 @@ class AffEval:
             a = self.ev(n.values[0], env)
             return a
         return Unknown(norm_src(n)[:60])
+
+
+def provably_nonneg(form, constraints, max_coeff=2):
+    """is `form` >= 0 whenever every form in `constraints` is >= 0?  Decided by
+    searching a representation form = sum(c_i * g_i) + const, c_i in
+    0..max_coeff, const >= 0 (enough for the index arithmetic analysed here)."""
+    import itertools
+    syms = set(k for k in form.norm() if k != 1)
+    for g in constraints:
+        syms |= set(k for k in g.norm() if k != 1)
+    for cs in itertools.product(range(max_coeff + 1), repeat=len(constraints)):
+        rest = form
+        for c, g in zip(cs, constraints):
+            for _ in range(c):
+                rest = rest - g
+        n = rest.norm()
+        if all(k == 1 for k in n) and n.get(1, 0) >= 0:
+            return True
+    return False
